@@ -11,7 +11,7 @@ open SnaxVerif.Pipeline
 barrier-respecting schedule of the unrolled program ends with every location holding what the ORIGINAL loop (single
 buffers, sequential order) leaves there. -/
 def C15_statement : Prop :=
-  ∀ (l : Loop) (tiles : List (Nat × Nat)) (st : List (List SOp)) (tr : List Tok) (u : Unrolled) (N : Nat) (sched : List Ev),
+  ∀ (l : Loop) (tiles : List (Nat × Nat × Bool)) (st : List (List SOp)) (tr : List Tok) (u : Unrolled) (N : Nat) (sched : List Ev),
     run l = .ok (.pipelined st tr u) → l.ub = some (N : Int) → Schedule ⟨tiles, st⟩ N sched →
     tr = [] ∧ ∀ x, exec ⟨tiles, st⟩ true sched initMem x = exec ⟨tiles, st⟩ false (seqEvents ⟨tiles, st⟩ N) initMem x
 
@@ -89,7 +89,7 @@ theorem pipeEvents_same_events {p : Prog} {N : Nat} {e : Ev} : e ∈ pipeEvents 
 /-! ## witnesses -/
 
 /-- a 3-stage chain: tile 0 -> dup 0 -> dup 1 -> tile 1 (as produced by `duplicate`) -/
-def chain3 : Prog := ⟨[(0, 0), (1, 0)],
+def chain3 : Prog := ⟨[(0, 0, false), (1, 0, false)],
   [[⟨0, [.tile 0], [.dup 0]⟩], [⟨1, [.dup 0, .alloc 5], [.dup 1]⟩], [⟨2, [.dup 1], [.tile 1, .alloc 6]⟩]]⟩
 
 def chain3Loop : Loop := ⟨some 0, some 4, some 1, false,
@@ -112,7 +112,7 @@ theorem unguarded_short_fails : (2, (-1 : Int)) ∈ (evalUnroll 3 1).flatten ∧
 /-- with the guard the same loop is declined -/
 example : run { chain3Loop with ub := some 1 } = .ok .declined := by decide
 
-def chain2 (off : Nat) : Prog := ⟨[(0, 0), (if off = 0 then 1 else 0, off)], [[⟨0, [.tile 0], [.dup 0]⟩], [⟨1, [.dup 0], [.tile 1]⟩]]⟩
+def chain2 (off : Nat) : Prog := ⟨[(0, 0, false), (if off = 0 then 1 else 0, off, false)], [[⟨0, [.tile 0], [.dup 0]⟩], [⟨1, [.dup 0], [.tile 1]⟩]]⟩
 
 /-- DC15a (clause NotDuplicated): after 2 iterations the original intermediate allocation holds iteration 0's data in the
 pipelined program and iteration 1's data in the original loop -/
@@ -150,5 +150,22 @@ theorem C15_statement_fails : ¬ C15_statement := by
     (unroll 2) 4 (seqEvents ⟨[], [[⟨0, [.tile 0], [.dup 0]⟩], [⟨1, [.dup 0], [.tile 1]⟩]]⟩ 4) (by decide) (by decide)
     ⟨List.Perm.refl _, by decide, by unfold Indep; decide⟩).1
   exact absurd this (by decide)
+
+/-! ## a view computed in the loop body as stage-to-stage buffer (seed C15-r2m2) -/
+
+def viewLoop : Loop := ⟨some 0, some 4, some 1, false,
+  [.idx, .idx, .idx, .op ⟨0, [.tile 0], [.tile 2]⟩, .sync, .op ⟨1, [.tile 2], [.tile 1]⟩, .sync]⟩
+
+/-- the passes refuse it ("buffer should be the result of a memref.alloc operation") -/
+example : run viewLoop = .error .notAlloc := by decide
+
+def viewProg : Prog := ⟨[(0, 0, false), (1, 0, false), (2, 0, true)], [[⟨0, [.tile 0], [.tile 2]⟩], [⟨1, [.tile 2], [.tile 1]⟩]]⟩
+
+/-- and rightly so: pipelined on the single loop-invariant view, `safeB` fails, the two events of slot 1 conflict and the
+program order leaves `B[0] = f(A[1])` -/
+theorem view_intermediate_unsafe :
+    safeB viewProg = false ∧
+    exec viewProg true (pipeEvents viewProg 2) initMem (.cell 1 0) ≠ exec viewProg false (seqEvents viewProg 2) initMem (.cell 1 0) := by
+  decide
 
 end SnaxVerif.C15
